@@ -158,7 +158,13 @@ class CGenerator:
         rval_str = self._parenthesize_if(
             n.rvalue, lambda n: isinstance(n, c_ast.Assignment)
         )
-        return f"{self.visit(n.lvalue)} {n.op} {rval_str}"
+        # An assignment used as the lvalue must keep its parentheses:
+        # (a = b) = c is not a = b = c. (A comma expression gets its
+        # parentheses from _visit_expr.)
+        lval_str = self._parenthesize_if(
+            n.lvalue, lambda n: isinstance(n, c_ast.Assignment)
+        )
+        return f"{lval_str} {n.op} {rval_str}"
 
     def visit_IdentifierType(self, n: c_ast.IdentifierType) -> str:
         return " ".join(n.names)
